@@ -65,7 +65,7 @@ Proof.
   cbn [activate_aux] in H. destruct k as [|k]; cbn [nth_error] in H.
   - inversion H; subst; clear H. assert (E : Nat.eqb i j = false) by (apply Nat.eqb_neq; lia). rewrite E in *.
     destruct (s_used y && same_group mode me y) eqn:C.
-    + cbn. unfold UNCONF, STARTED. lia.
+    + cbn. unfold UNCONF, STARTED. destruct (s_st y =? 1) eqn:Q; [lia | apply Z.eqb_neq in Q; exact Q].
     + (* x = y unchanged, but then used && same_group = false contradicts the hypotheses *)
       rewrite Hu, Hs in C. discriminate C.
   - apply (IH (S j) k x H); try assumption. lia.
